@@ -549,7 +549,7 @@ package loadbalancer
 //@   ensures_panic gauge_restored_on_abort: backend.ActiveConnections == old(backend.ActiveConnections)
 //@   ensures_panic aborted_counts_as_failed: mtx(lb).FailedRequests == old(mtx(lb).FailedRequests) + 1 && outcomes(lb) == old(outcomes(lb)) + 1
 //@   ensures_panic kept_on_abort: bmCellsOK(lb.metricsCollector) && passiveOK(lb) && mtx(lb).TotalRequests == old(mtx(lb).TotalRequests)
-//@   modifies r.Body, proxied, lastProxiedReq, lastProxiedWriter, http.ResponseWriter.ceAtCommit, http.ResponseWriter.clAtCommit, backend.ActiveConnections, Backend.IsHealthy, Backend.UnhealthyUntil, mapof(lb.healthChecks.unhealthyBackends), mapof(lb.metricsCollector.metrics.BackendMetrics),
+//@   modifies gaugeReadUnderLock, r.Body, proxied, lastProxiedReq, lastProxiedWriter, http.ResponseWriter.ceAtCommit, http.ResponseWriter.clAtCommit, backend.ActiveConnections, Backend.IsHealthy, Backend.UnhealthyUntil, mapof(lb.healthChecks.unhealthyBackends), mapof(lb.metricsCollector.metrics.BackendMetrics),
 //@            metrics.BackendMetrics.IsHealthy, metrics.BackendMetrics.LastHealthCheck, metrics.BackendMetrics.TotalRequests, metrics.BackendMetrics.SuccessfulRequests,
 //@            metrics.BackendMetrics.FailedRequests, metrics.BackendMetrics.AverageResponseTime, metrics.BackendMetrics.ActiveConnections, metrics.Metrics.SuccessfulRequests,
 //@            metrics.Metrics.FailedRequests, metrics.Metrics.avgResponseTimeBits, responseWriter.statusCode, http.ResponseWriter.committed, http.ResponseWriter.status,
@@ -569,7 +569,7 @@ package loadbalancer
 //@   ensures kept: bmCellsOK(lb.metricsCollector) && passiveOK(lb) && mtx(lb).TotalRequests == old(mtx(lb).TotalRequests)
 //@   ensures_panic aborted_counts_as_failed: mtx(lb).FailedRequests == old(mtx(lb).FailedRequests) + 1 && outcomes(lb) == old(outcomes(lb)) + 1
 //@   ensures_panic kept_on_abort: mtx(lb).TotalRequests == old(mtx(lb).TotalRequests) && mtx(lb).RateLimitedRequests == old(mtx(lb).RateLimitedRequests)
-//@   modifies r.Body, proxied, lastProxiedReq, lastProxiedWriter, http.ResponseWriter.ceAtCommit, http.ResponseWriter.clAtCommit, hashedKey, Backend.ActiveConnections, Backend.IsHealthy, Backend.UnhealthyUntil, RoundRobinStrategy.current, weightedBackend.currentWeight,
+//@   modifies gaugeReadUnderLock, r.Body, proxied, lastProxiedReq, lastProxiedWriter, http.ResponseWriter.ceAtCommit, http.ResponseWriter.clAtCommit, hashedKey, Backend.ActiveConnections, Backend.IsHealthy, Backend.UnhealthyUntil, RoundRobinStrategy.current, weightedBackend.currentWeight,
 //@            mapof(lb.healthChecks.unhealthyBackends), mapof(lb.metricsCollector.metrics.BackendMetrics),
 //@            metrics.BackendMetrics.IsHealthy, metrics.BackendMetrics.LastHealthCheck, metrics.BackendMetrics.TotalRequests, metrics.BackendMetrics.SuccessfulRequests,
 //@            metrics.BackendMetrics.FailedRequests, metrics.BackendMetrics.AverageResponseTime, metrics.BackendMetrics.ActiveConnections, metrics.Metrics.SuccessfulRequests,
